@@ -6,12 +6,12 @@ RULE = ('cases = histories over key graphs built by init/add-key (shared, clone,
         'list-snapshots rows (visible iff same key family; details iff same user key), list-files, restore of other users\' snapshots (must write '
         'nothing), delete naming other users\' snapshots (must be refused and change nothing), clean/delete confinement to the family, and at the '
         'end the full unlock matrix key x password plus mangled passwords; lifted state compared with Model/Repo.exec; non-trivial = >= 3 commands of >= 2 kinds')
-WEIGHTS = {'snapshot': 4, 'repeat': 1, 'delete': 2, 'delete_foreign': 4, 'clean': 2, 'observe': 4}
+WEIGHTS = {'snapshot': 4, 'repeat': 1, 'delete': 2, 'delete_foreign': 4, 'clean': 3, 'observe': 4, 'orphans': 1.5}
 CHECKS = {'access', 'frame', 'restore'}
 MINE = ('visibility', 'details', 'file_list_foreign', 'restore_foreign', 'restore_foreign_crash', 'delete_foreign_succeeded', 'delete_foreign_crash', 'refused_delete_mutated', 'unlock', 'unlock_crash', 'gc_overreach', 'referenced_chunk_missing', 'restore_mismatch', 'exception')
 
 
-CLI_MINE = ('exception', 'hang', 'snapshot_unreadable', 'snapshot_objects', 'snapshot_name', 'visibility', 'details', 'file_list_foreign', 'restore_foreign', 'restore_foreign_crash', 'delete_foreign_succeeded', 'refused_delete_mutated', 'shared_secrets_differ', 'independent_secrets_equal', 'key_unusable', 'gc_overreach')
+CLI_MINE = ('snapshot_not_listed', 'exception', 'hang', 'snapshot_unreadable', 'snapshot_objects', 'snapshot_name', 'visibility', 'details', 'file_list_foreign', 'restore_foreign', 'restore_foreign_crash', 'delete_foreign_succeeded', 'refused_delete_mutated', 'shared_secrets_differ', 'independent_secrets_equal', 'key_unusable', 'gc_overreach')
 
 
 def _run(ctx, n, nops, rep, concurrent=None):
